@@ -139,7 +139,8 @@ ENUM_CFGS = (
 
 def fixed_cases():
     """One fixed case per (layout, granularity): inside it *every* placement of one worker exception is tried."""
-    return [{"mode": 63, "enum_cfg": c, "enum_gran": g} for c in range(len(ENUM_CFGS)) for g in (0, 1)]
+    return ([{"mode": 63, "enum_cfg": c, "enum_gran": g} for c in range(len(ENUM_CFGS)) for g in (0, 1)] +
+            [{"mode": 62, "order_cfg": c} for c in range(len(ORDER_CFGS))])
 
 
 def _enum_case(ch, out):
@@ -196,10 +197,75 @@ def _enum_case(ch, out):
     return out
 
 
+# ---- enumerated arrival orders at the synchronisation points ---------------------------------------------------------
+ORDER_CFGS = (
+    dict(rows=36, cols=8, grid=(4, 4), box=(12, 8), cores=3, nslice=3, mask=True),      # 3 stripes, two barriers
+    dict(rows=24, cols=8, grid=(4, 4), box=(12, 8), cores=2, nslice=2, mask=True),      # 2 stripes, two barriers
+    dict(rows=36, cols=8, grid=(4, 4), box=(12, 8), cores=4, nslice=3, mask=False),     # 3 stripes, one barrier, spare worker
+    dict(rows=48, cols=6, grid=(4, 2), box=(16, 4), cores=4, nslice=4, mask=True),      # 4 stripes (sampled orders)
+)
+
+
+def _order_case(ch, out):
+    """For a fixed layout: every order in which the stripes can reach barrier 1 and barrier 2 (all pairs of
+    permutations for <= 3 stripes, 60 drawn pairs for 4), plus every (stripe, barrier) choice of a stripe that is held
+    for 5000 s on the first source line after it leaves that barrier.  Every run must terminate, write everything,
+    leak nothing and give maps bit-identical to the canonical schedule's."""
+    import itertools
+    ci = ch.draw("order_cfg", len(ORDER_CFGS))
+    cfg = dict(ORDER_CFGS[ci], naxis=2, nplanes=1, cube_index=0, bitpix=-32, bscale=None)
+    content = dict(seed=11, kind="gradient", offset_pow=7, offset_neg=False, sigma_pow=0, blank="block", blank_inf=False, blank_seed=5)
+    img = bw.make_image(cfg, content)
+    fn = bw.write_image(bw.fresh_path("c07o"), cfg, img)
+    out.sample = {"order_enumeration": _cfg_str(cfg), "schedules": 0}
+    try:
+        r0 = _run(fn, cfg, bw.canonical_sched(0, 1), ch, fill="payload")
+        _count(out, r0)
+        if not _basic(out, r0, cfg, "canonical schedule (order enumeration reference)"):
+            return out
+        n = len(r0.layout)
+        nphase = 2 if cfg["mask"] else 1
+        perms = list(itertools.permutations(range(n)))
+        if n <= 3:
+            combos = list(itertools.product(perms, repeat=nphase))
+        else:
+            combos = [tuple(perms[ch.draw("perm", len(perms))] for _ in range(nphase)) for _ in range(60)]
+        scheds = [dict(perms=[list(p) for p in c], stall=None) for c in combos]
+        ident = [list(range(n))] * nphase
+        for w in range(n):
+            for ph in range(1, nphase + 1):
+                scheds.append(dict(perms=ident, stall=(w, ph)))
+                scheds.append(dict(perms=[list(reversed(range(n)))] * nphase, stall=(w, ph)))
+        for o in scheds:
+            sched = {"profile": "ordered", "hot_stride": 0, "line_mode": 1, "order": o}
+            rv = _run(fn, cfg, sched, ch, fill="payload")
+            _count(out, rv)
+            out.stats["enumerated_arrival_orders"] += 1
+            out.sample["schedules"] += 1
+            what = "arrival orders %s%s" % (o["perms"], "" if o["stall"] is None else
+                                            ", stripe %d held after barrier %d" % tuple(o["stall"]))
+            if not _basic(out, rv, cfg, what):
+                return out
+            out.stats["oracle:bit_identical_per_layout"] += 1
+            if not (_same_bits(rv.bkg, r0.bkg) and _same_bits(rv.rms, r0.rms)):
+                nb = int(np.count_nonzero(rv.bkg.view(np.uint32) != r0.bkg.view(np.uint32)))
+                nr = int(np.count_nonzero(rv.rms.view(np.uint32) != r0.rms.view(np.uint32)))
+                out.violation("schedule-dependent", "%s, layout %s, %s: %d bkg and %d rms pixels differ from the canonical schedule's maps"
+                              % (_cfg_str(cfg), r0.layout, what, nb, nr), sig=None, cfg=_cfg_str(cfg), layout=str(r0.layout))
+                out.trace = _trace(rv)
+                return out
+    finally:
+        bw.remove_quietly(fn)
+    return out
+
+
 def case(ch):
     out = Outcome()
-    if ch.draw("mode", 64) == 63:
+    mode = ch.draw("mode", 64)
+    if mode == 63:
         return _enum_case(ch, out)
+    if mode == 62:
+        return _order_case(ch, out)
     cfg = bw.gen_config(ch)
     content = bw.gen_content(ch, cfg)
     hot, line = bw.gen_yield_settings(ch)
